@@ -176,6 +176,9 @@ func runC43(c *Ctx) []Obligation {
 	appsPool := `invoke x/auth/exported\.ModuleAccountI\.GetCoins\(\(x/apps/keeper\.Keeper\)\.GetStakedPool\(keeper, invoke types\.Ctx\.WithBlockHeight\(ctx, 0\)\)\)`
 	adds := `SetSupply\(|Inflate\(|MintCoins\(|SetCoins\(`
 	out = append(out, c.Rows([]Row{
+		{Prop: P, ID: "app.export-at-requested-height", Fn: "(*app.PocketCoreApp).ExportAppState",
+			Target: CallTo(`ExportGenesis\(`).Except(`^\(\*types/module\.Manager\)\.ExportGenesis\(app\.mm, \(\*app\.PocketCoreApp\)\.NewContext\(app, height\)#0\)$`), Why: "the export reads every module through a context of the requested height"},
+		{Prop: P, ID: "app.export-context-error-fails", Fn: "(*app.PocketCoreApp).ExportAppState", Assume: []Lit{T(`^nonnil\(\(\*app\.PocketCoreApp\)\.NewContext\(app, height\)#1\)$`)}, Target: Success(), Why: "no export without a context for that height"},
 		{Prop: P, ID: "manager.export-every-module", Fn: "(*types/module.Manager).ExportGenesis",
 			Target: CallTo(`^invoke types/module\.AppModule\.ExportGenesis\(`).Except(`^invoke types/module\.AppModule\.ExportGenesis\(m\.Modules\[m\.OrderExportGenesis\[\(phi:rangeindex \+ 1\)\]\], ctx\)$`), Why: "each module in the export order is exported"},
 		{Prop: P, ID: "manager.export-under-own-name", Fn: "(*types/module.Manager).ExportGenesis",
